@@ -335,32 +335,30 @@ func c04range(c *an.Ctx) {
 			c.Bad(fn, "deferred delay within [0, MaxReqTimeout]", fn.Pos(), "no store to msg.deferred found: the delay is ignored", nil)
 		}
 	}
-	// DPUB's reject arm is fatal E_INVALID
+	// DPUB's reject arm is fatal E_INVALID: the edges that leave the range guard and cannot reach the store
 	if fn := c.Fn("nsqd", "(*protocolV2).DPUB"); fn != nil && fatal != nil {
-		var rej []an.Edge
+		var use ssa.Instruction
+		var qty ssa.Value
 		an.Instrs(fn, func(in ssa.Instruction) {
-			ifi, ok := in.(*ssa.If)
-			if !ok {
-				return
-			}
-			b, ok := ifi.Cond.(*ssa.BinOp)
-			if !ok {
-				return
-			}
-			if isOptsField(c, b.X, "nsqd", "MaxReqTimeout") || isOptsField(c, b.Y, "nsqd", "MaxReqTimeout") {
-				// the edge on which d > max holds
-				for i, s := range ifi.Block().Succs {
-					for _, cmp := range an.CmpsOnEdge(an.Edge{From: ifi.Block(), To: s}) {
-						if cmp.If == ifi {
-							oc, ok := cmp.Oriented(func(x ssa.Value) bool { return !isOptsField(c, x, "nsqd", "MaxReqTimeout") })
-							if ok && oc.Op == token.GTR {
-								rej = append(rej, an.Edge{From: ifi.Block(), To: ifi.Block().Succs[i]})
-							}
-						}
-					}
+			if st, ok := in.(*ssa.Store); ok {
+				if fa, ok := st.Addr.(*ssa.FieldAddr); ok && an.FieldOf(fa) == defF {
+					use, qty = in, st.Val
 				}
 			}
 		})
+		var ifs []*ssa.If
+		if use != nil {
+			bd := an.BoundsOf(use.Block(), func(x ssa.Value) bool { return x == qty })
+			for _, u := range bd.Upper {
+				if u.Op == token.LEQ && an.OriginsAll(u.Y, func(o ssa.Value) bool { return isOptsField(c, o, "nsqd", "MaxReqTimeout") }) {
+					ifs = append(ifs, u.If)
+				}
+			}
+		}
+		var rej []an.Edge
+		if use != nil {
+			rej = rejectEdgesOf(fn, ifs, use)
+		}
 		ok, why, w := errReturnsFrom(fn, rej, fatal, "E_INVALID")
 		if ok && len(rej) > 0 {
 			c.OK(fn, "out-of-range delay => fatal E_INVALID", fn.Pos(), "")
